@@ -134,6 +134,37 @@ int main(int argc, char** argv) {
     std::string g2 = outcome([&] { PathsD r = MinkowskiSum(PathD{PointD(0.0, 0.0), PointD(1.0, 0.0), PointD(1.0, 1.0)}, PathD{PointD(3e16, 0.0), PointD(3e16, 3e16), PointD(0.0, 3e16)}, true, 2); return std::string(r.empty() ? "empty" : "ran"); });
     must_report("minkowskiD.range", "MinkowskiSum(PathD) coordinates 3e16 precision=2 (scaled 3e18 > MAX_COORD)", g2, false);
   }
+  // ONE out-of-range coordinate, in every position (first / middle / last vertex of the first / second path), on either axis,
+  // of either sign: the range check looks at the bounds of all vertices, so where the offender stands must not matter
+  {
+    for (int path_i = 0; path_i < 2; ++path_i) for (int vert_i = 0; vert_i < 3; ++vert_i) for (int axis = 0; axis < 2; ++axis) for (int sg = 0; sg < 2; ++sg) {
+      PathsD in{PathD{PointD(1.0, 2.0), PointD(11.0, 3.0), PointD(4.0, 9.0)}, PathD{PointD(21.0, 2.0), PointD(31.0, 3.0), PointD(24.0, 9.0)}};
+      double huge = sg ? -1e30 : 1e30;
+      if (axis == 0) in[(size_t)path_i][(size_t)vert_i].x = huge; else in[(size_t)path_i][(size_t)vert_i].y = huge;
+      std::string where = "path " + std::to_string(path_i) + " vertex " + std::to_string(vert_i) + (axis ? " y=" : " x=") + (sg ? "-1e30" : "1e30");
+      {
+        int ec = 0;
+        std::string got = outcome([&] { Paths64 r = ScalePaths<int64_t, double>(in, 100.0, ec); return std::string(r.empty() ? "empty" : "ran"); });
+        stat("reporting.one_offender.ScalePaths");
+        if (!(got == "threw 64" || (!EXC && (ec & 64)))) emitF("one_offender.ScalePaths", "out-of-range coordinate not reported: " + where + " -> " + got + " code " + std::to_string(ec));
+      }
+      {
+        std::string got = outcome([&] { ClipperD c(2); c.AddSubject(in); return "code " + std::to_string(c.ErrorCode()); });
+        stat("reporting.one_offender.ClipperD.AddSubject");
+        if (!(got == "threw 64" || got == "code 64")) emitF("one_offender.ClipperD", "AddSubject: out-of-range coordinate not reported: " + where + " -> " + got);
+      }
+      {
+        std::string got = outcome([&] { PathsD r = InflatePaths(in, 1.0, JoinType::Miter, EndType::Polygon, 2.0, 2, 0.0); return std::string(r.empty() ? "empty" : "ran"); });
+        must_report("one_offender.InflatePathsD", "InflatePaths(PathsD): " + where, got, false);
+      }
+      if (path_i == 0) {
+        int ec = 0;
+        std::string got = outcome([&] { Path64 r = ScalePath<int64_t, double>(in[0], 100.0, ec); return std::string(r.empty() ? "empty" : "ran"); });
+        stat("reporting.one_offender.ScalePath");
+        if (!(got == "threw 64" || (!EXC && (ec & 64)))) emitF("one_offender.ScalePath", "out-of-range coordinate not reported: " + where + " -> " + got + " code " + std::to_string(ec));
+      }
+    }
+  }
   // per-axis scales: each coordinate is checked against the range with ITS OWN scale (x*sx, y*sy); a value that only fits with
   // the other axis' scale must be reported, one that only overflows with the other axis' scale must not
   {
